@@ -1,6 +1,8 @@
 import Mathlib.Tactic.Ring
 import Mathlib.Tactic.Linarith
 import Mathlib.Data.List.Perm.Basic
+import Mathlib.Data.List.Nodup
+import Mathlib.Data.List.Range
 import TapkeeVerif.Model.LocallyLinear
 /-!
 HLLE column bookkeeping (`hessian_weight_matrix`): the product columns `Yi.col(ct + p + 1 + d)` written by the
@@ -224,5 +226,111 @@ theorem hlleIndexErr_none (d : Nat) : hlleIndexErr d = none := by
   simp only [hlleIndexErr, h1, h2, h3]
 
 end Fixed
+
+/-! ### which products are formed: every `u_a ∘ u_b`, `1 ≤ a ≤ b ≤ d`, exactly once -/
+
+/-- hand-written (no generated expression): all pairs `(a, b)` with `1 ≤ a ≤ b ≤ d`, by increasing `a`, then `b` -/
+def allPairs (d : Nat) : List (Int × Int) :=
+  (List.range d).flatMap fun j => (List.range (d - j)).map fun p => (((j + 1 : Nat) : Int), ((j + p + 1 : Nat) : Int))
+
+theorem mem_allPairs (d : Nat) (a b : Int) : (a, b) ∈ allPairs d ↔ 1 ≤ a ∧ a ≤ b ∧ b ≤ (d : Int) := by
+  simp only [allPairs, List.mem_flatMap, List.mem_map, List.mem_range, Prod.mk.injEq]
+  constructor
+  · rintro ⟨j, hj, p, hp, rfl, rfl⟩
+    omega
+  · intro h
+    exact ⟨(a - 1).toNat, by omega, (b - a).toNat, by omega, by omega, by omega⟩
+
+theorem allPairs_nodup (d : Nat) : (allPairs d).Nodup := by
+  unfold allPairs
+  rw [List.nodup_flatMap]
+  constructor
+  · intro j _
+    refine (List.nodup_range).map ?_
+    intro p q h
+    simp only [Prod.mk.injEq] at h
+    omega
+  · refine (List.pairwise_lt_range).imp ?_
+    intro i j hij
+    simp only [Function.onFun, List.disjoint_left, List.mem_map, List.mem_range]
+    rintro x ⟨p, _, rfl⟩ ⟨q, _, h⟩
+    simp only [Prod.mk.injEq] at h
+    omega
+
+/-- the pairs formed from block `j` on, `r` blocks to go (`allPairs d = pairsFrom d d 0`) -/
+def pairsFrom (d : Nat) : Nat → Nat → List (Int × Int)
+  | 0, _ => []
+  | r + 1, j =>
+    ((List.range (d - j)).map fun p => (((j + 1 : Nat) : Int), ((j + p + 1 : Nat) : Int))) ++ pairsFrom d r (j + 1)
+
+theorem pairsFrom_eq (d : Nat) : ∀ r j, pairsFrom d r j
+    = (List.range r).flatMap fun i =>
+        (List.range (d - (j + i))).map fun p => (((j + i + 1 : Nat) : Int), ((j + i + p + 1 : Nat) : Int)) := by
+  intro r
+  induction r with
+  | zero => intro j; rfl
+  | succ r ih =>
+    intro j
+    rw [pairsFrom, ih, List.range_succ_eq_map, List.flatMap_cons, List.flatMap_map]
+    congr 1
+    apply List.flatMap_congr
+    intro i _
+    have h1 : j + 1 + i = j + (i + 1) := by omega
+    simp only [h1]
+
+theorem allPairs_eq_pairsFrom (d : Nat) : allPairs d = pairsFrom d d 0 := by
+  rw [pairsFrom_eq]
+  simp only [allPairs, Nat.zero_add]
+
+/-- the source pairs do not depend on the `ct` update -/
+theorem writesGoWith_pairs (upd : Int → Int → Int → Int)
+    (hsrcA : ∀ p d j, srcA p d j = j + 1) (hsrcB : ∀ p d j, srcB p d j = j + p + 1) (d : Nat) :
+    ∀ (r j : Nat) (ct : Int), j + r = d →
+      (writesGoWith upd d r (j : Int) ct).map (·.2) = pairsFrom d r j := by
+  intro r
+  induction r with
+  | zero => intro j ct _; rfl
+  | succ r ih =>
+    intro j ct h
+    have hlen : (pHi (d : Int) (j : Int) - pLo).toNat = d - j := by
+      simp only [pHi, pLo]
+      omega
+    have hj : ((j : Int) + 1) = ((j + 1 : Nat) : Int) := by push_cast; rfl
+    simp only [writesGoWith, pairsFrom, hlen, List.map_append, List.map_map, hj]
+    rw [ih (j + 1) _ (by omega)]
+    congr 1
+    apply List.map_congr_left
+    intro p _
+    simp only [Function.comp, hsrcA, hsrcB, pLo, Prod.mk.injEq]
+    constructor <;> omega
+
+section Pairs
+variable (hfix : ∀ ct d j, ctUpdate ct d j = ct + (d - j))
+variable (hsrcA : ∀ p d j, srcA p d j = j + 1) (hsrcB : ∀ p d j, srcB p d j = j + p + 1)
+include hfix hsrcA hsrcB
+
+/-- the source pairs of the writes, in program order, are exactly `allPairs d` -/
+theorem hlleWrites_pairs (d : Nat) : (hlleWrites d).map (·.2) = allPairs d := by
+  rw [hlleWrites_eq_fixed hfix, allPairs_eq_pairsFrom]
+  have hr : (jHi (d : Int) - jLo).toNat = d := by
+    simp only [jHi, jLo]
+    omega
+  have h0 : jLo = ((0 : Nat) : Int) := rfl
+  rw [hr, h0]
+  exact writesGoWith_pairs ctFixed hsrcA hsrcB d d 0 ctInit (by omega)
+
+/-- hand-written expected write list: the `c`-th pair of `allPairs d` is written to column `1 + d + c` -/
+def expectedWrites (d : Nat) : List (Int × Int × Int) :=
+  ((List.range (d * (d + 1) / 2)).map fun c => ((1 + d + c : Nat) : Int)).zip (allPairs d)
+
+omit hfix hsrcA hsrcB in
+theorem expectedWrites_def (d : Nat) : expectedWrites d
+    = ((List.range (d * (d + 1) / 2)).map fun c => ((1 + d + c : Nat) : Int)).zip (allPairs d) := rfl
+
+/-- the model's write list IS the expected one, in order -/
+theorem hlleWrites_eq_expected (d : Nat) : hlleWrites d = expectedWrites d :=
+  List.zip_of_prod (hlleWrites_cols hfix d) (hlleWrites_pairs hfix hsrcA hsrcB d)
+
+end Pairs
 
 end TapkeeVerif.LocallyLinear
